@@ -156,6 +156,16 @@ def vsel(c):
     return zlib.crc32(case_key(c).encode())
 
 
+def chain_expr(c, x, y, z):
+    """((F)(I)x) op rhs / rhs op ((F)(I)x); for an integer I the conversion to F is left to the usual arithmetic
+    conversions in half of the cases (selected by the case's hash); rhs is y or (y + z)"""
+    F, I = CT[c["bt"]], CT[c["it"]]
+    implicit = c["it"] not in FLT and (vsel(c) >> 3) & 1
+    chain = "(%s)%s" % (I, x) if implicit else "(%s)(%s)%s" % (F, I, x)
+    rhs = "(%s + %s)" % (y, z) if z else y
+    return "%s %s %s" % ((chain, OPS[c["op"]], rhs) if c["f"] == "chl" else (rhs, OPS[c["op"]], chain))
+
+
 AGG = ("agg-arr", "agg-nest", "agg-mem", "agg-desg", "agg-cl")
 
 
@@ -182,6 +192,14 @@ def modes(c):
                     out[m] = (xl, yl)
                 if c["at"] not in FLT and c["rt"] in FLT:
                     out["lit-cond"] = (xl, yl)
+    if f in ("chl", "chr"):
+        xl = operand_literal(c["at"], c["xb"])
+        yl = operand_literal(c["bt"], c["yb"])
+        zl = operand_literal(c["bt"], c["zb"]) if c["zb"] else ""
+        if xl is not None and yl is not None and zl is not None:
+            e = chain_expr(c, xl, yl, zl)
+            out["literal"] = (e, "")
+            out["static"] = (e, "")
     if f == "mixed" and c["op"] == "cond" or f == "opasg":
         xl = operand_literal(c["at"], c["xb"])
         yl = operand_literal(c["bt"], c["yb"])
@@ -189,7 +207,7 @@ def modes(c):
             out["literal"] = (xl, yl)
     if f in ("dec", "hex"):
         out = {"local": (None, None), "static": (None, None)}
-    if "static" in out:
+    if "static" in out and f not in ("chl", "chr"):
         # the same constant expression as an element initializer of an object with automatic storage duration
         for m in AGG:
             out[m] = out["static"]
@@ -257,7 +275,7 @@ def render(i, c):
         if c["yb"]:
             pre.append("%s y; memcpy(&y, I%d + %d, %d);" % (CT[bt], i, len(c["xb"]), len(c["yb"])))
         if c.get("zb"):
-            pre.append("%s z; memcpy(&z, I%d + %d, %d);" % (CT[at], i, len(c["xb"]) + len(c["yb"]), len(c["zb"])))
+            pre.append("%s z; memcpy(&z, I%d + %d, %d);" % (CT[bt] if f in ("chl", "chr") else CT[at], i, len(c["xb"]) + len(c["yb"]), len(c["zb"])))
     v = vsel(c) % 3
     mode, xl, yl = context(c)
     if mode == "literal" and f == "opasg":
@@ -287,7 +305,9 @@ def render(i, c):
             body.append('printf("W %d %%lu\\n", (unsigned long)(%s));' % (i, e))
     elif mode != "memory" and f not in ("dec", "hex"):
         pre = []
-        if f == "conv":
+        if f in ("chl", "chr"):
+            e = xl
+        elif f == "conv":
             e = "(%s)%s" % (RT, xl)
         elif f == "neg":
             e = "-%s" % xl
@@ -321,6 +341,9 @@ def render(i, c):
             body.append("%s r = g%d(x);" % (RT, i))
         if rt not in FLT:
             body.append('printf("W %d %%lu\\n", (unsigned long)(%s));' % (i, e))
+    elif f in ("chl", "chr"):
+        e = chain_expr(c, "x", "y", "z" if c["zb"] else "")
+        body.append("%s r = %s;" % (RT, e))
     elif f in ("d2l", "d2r"):
         e = "(x %s y) %s z" % (OPS[op], OPS[c["op2"]]) if f == "d2l" else "z %s (x %s y)" % (OPS[c["op2"]], OPS[op])
         body.append("%s r = %s;" % (RT, e))
@@ -538,6 +561,9 @@ def sig_of0(c, exp, got):
         return "conv:%s->%s:%s" % (SHORT[at], SHORT[bt], kind or cls)
     if f in ("d2l", "d2r"):
         return "%s:%s-%s:%s:%s" % (f, op, c["op2"], SHORT[at], kind or "value")
+    if f in ("chl", "chr"):
+        return "chain:%s:%s->%s->%s:%s:%s" % (op, SHORT[at], SHORT[c["it"]], SHORT[bt], "left" if f == "chl" else "right",
+                                            kind or ("nan" if is_nan(at, c["xb"]) and at in FLT else "value"))
     if f in ("arith", "neg"):
         cl = {fval_class(at, c["xb"])} | ({fval_class(bt, c["yb"])} if c["yb"] else set())
         return "%s:%s:%s:%s" % (f, op, SHORT[at], kind or ("nan" if "nan" in cl else "value"))
@@ -556,7 +582,7 @@ def sig_of0(c, exp, got):
 
 
 def case_key(c):
-    return json.dumps([c["f"], c["op"], c.get("op2", ""), c["at"], c["bt"], c["i"], c["j"]])
+    return json.dumps([c["f"], c["op"], c.get("op2", "") + c.get("it", ""), c["at"], c["bt"], c["i"], c["j"]])
 
 
 def full_key(c):
@@ -630,7 +656,8 @@ def run(ctx):
     gens = [gen_job(ctx, ["conv", "neg", "truth", "vararg"], 3 if q else 1, "gen-small"),
             gen_job(ctx, ["arith", "cmp"], 5 if q else 1, "gen-arith"),
             gen_job(ctx, ["dec", "hex", "mixed", "opasg"], 5 if q else 1, "gen-const"),
-            gen_job(ctx, ["d2l", "d2r"], 5 if q else 1, "gen-depth2")]
+            gen_job(ctx, ["d2l", "d2r"], 5 if q else 1, "gen-depth2"),
+            gen_job(ctx, ["chl", "chr"], 5 if q else 1, "gen-chain")]
     jobs = [j for j in jobs if j["expect"] == "ok"] + gens + [j for j in jobs if j["expect"] == "reject"]
     box = {}
 
